@@ -46,5 +46,8 @@ RULES = [
     ("C08.explicit_resize", lambda c, r: __import__("sa.rules.lfht2", fromlist=["x"]).rule_explicit_resize(c, r, "C08.explicit_resize")),
     ("C08.count_approx", lambda c, r: __import__("sa.rules.lfht2", fromlist=["x"]).rule_count_approx(c, r, "C08.count_approx")),
     ("C08.mmcases", lambda c, r: __import__("sa.rules.lfht2", fromlist=["x"]).rule_mm_cases(c, r, "C08.mmcases")),
+    ("C08.addreplace", lambda c, r: __import__("sa.rules.lfht2", fromlist=["x"]).rule_addreplace(c, r, "C08.addreplace")),   # what add_replace returns: NULL iff own node inserted, the old node only after a successful replace, retry otherwise
+    ("C08.walkstart", lambda c, r: __import__("sa.rules.lfht2", fromlist=["x"]).rule_walkstart(c, r, "C08.walkstart")),   # whole-table walks start at bucket 0
+    ("C08.rhinit", lambda c, r: __import__("sa.rules.lfht2", fromlist=["x"]).rule_rhinit(c, r, "C08.rhinit")),   # node->reverse_hash = bit_reverse_ulong(hash) before linking, in every entry point
 ]
 FLOORS = {}
